@@ -155,3 +155,75 @@ def time_axes_and_grids(tier, seed):
             fails.append({"case": case, "raised": f"{type(e).__name__}: {e}"})
     return {"evaluations": evals, "distinct": evals, "failures": _dedupe(fails),
             "domain": "datetime64 time axes of 2..19 steps with targets as datetime64 / aware datetime / epoch seconds; interpolate_dataset_grid over (time, frequency), linear and nearest"}
+
+
+def spectrum_interpolation(tier, seed):
+    """spectrum-level interpolation in frequency (1D and 2D; linear and nearest): values at nodes, between neighbours,
+    energy-weighted moments for 1D spectra, extrapolation value outside the grid, operand unchanged"""
+    import numpy as np
+    from ocean_science_utilities.wavespectra.spectrum import create_1d_spectrum, create_2d_spectrum
+    rng = np.random.default_rng(seed + 21)
+    n = 6 if tier == "quick" else 60
+    fails, samples, evals = [], [], 0
+    for k in range(n):
+        nf = int(rng.integers(4, 12))
+        f = np.sort(rng.uniform(0.03, 0.6, nf)) + np.arange(nf) * 1e-3
+        E = rng.random((2, nf)) + 0.05
+        a1 = rng.uniform(-0.6, 0.6, E.shape)
+        b1 = rng.uniform(-0.6, 0.6, E.shape)
+        s1 = create_1d_spectrum(f, E, np.arange(2) * 3600.0, np.zeros(2), np.zeros(2), a1=a1, b1=b1, a2=a1 * 0.3, b2=b1 * 0.3, depth=np.full(2, np.inf))
+        inner = np.sort(rng.uniform(f[0], f[-1], 5))
+        targets = np.concatenate([[f[0] * 0.5], f[[0, nf // 2, -1]], inner, [f[-1] * 1.5]])
+        cases = [("linear", 0.0), ("nearest", 0.0), ("linear", -1.0)]
+        for method, xval in cases:
+            evals += 1
+            try:
+                before = {v: s1.dataset[v].values.copy() for v in s1.dataset.variables}
+                r = s1.interpolate_frequency(targets, extrapolation_value=xval, method=method)
+            except Exception as e:
+                fails.append({"case": k, "kind": "1d", "method": method, "what": f"raised {type(e).__name__}: {e}"[:220], "known_key": f"spectrum_interpolation:1d:{type(e).__name__}"})
+                continue
+            Er = r.variance_density.values
+            ok = True
+            for p in range(2):
+                for j, x in enumerate(targets):
+                    if x < f[0] or x > f[-1]:
+                        ok = ok and np.isclose(Er[p, j], xval)
+                        continue
+                    i = min(int(np.searchsorted(f, x, side="right")) - 1, nf - 2)
+                    t = (x - f[i]) / (f[i + 1] - f[i])
+                    if method == "nearest":
+                        t = np.rint(t)
+                    ok = ok and np.isclose(Er[p, j], (1 - t) * E[p, i] + t * E[p, i + 1], rtol=1e-9)
+                    A = ((1 - t) * a1[p, i] * E[p, i] + t * a1[p, i + 1] * E[p, i + 1]) / ((1 - t) * E[p, i] + t * E[p, i + 1])
+                    ok = ok and np.isclose(r.a1.values[p, j], A, rtol=1e-8, atol=1e-12)
+            after = {v: s1.dataset[v].values for v in s1.dataset.variables}
+            ok = ok and all(np.array_equal(before[v], after[v], equal_nan=True) if before[v].dtype.kind == "f" else np.array_equal(before[v], after[v]) for v in before)
+            if not ok:
+                fails.append({"case": k, "kind": "1d", "method": method, "extrapolation_value": xval, "what": "values differ from the piecewise-linear / nearest / energy-weighted reference, or operand modified",
+                              "known_key": f"spectrum_interpolation:1d:{method}:values"})
+        # 2D
+        nd = 8
+        d = np.linspace(0, 360, nd, endpoint=False)
+        E2 = rng.random((2, nf, nd)) + 0.05
+        s2 = create_2d_spectrum(f, d, E2, np.arange(2) * 3600.0, np.zeros(2), np.zeros(2), depth=np.full(2, np.inf))
+        evals += 1
+        try:
+            r2 = s2.interpolate_frequency(targets)
+            ok = True
+            Er = r2.variance_density.values
+            for j, x in enumerate(targets):
+                if x < f[0] or x > f[-1]:
+                    ok = ok and np.allclose(Er[:, j, :], 0.0)
+                    continue
+                i = min(int(np.searchsorted(f, x, side="right")) - 1, nf - 2)
+                t = (x - f[i]) / (f[i + 1] - f[i])
+                ok = ok and np.allclose(Er[:, j, :], (1 - t) * E2[:, i, :] + t * E2[:, i + 1, :], rtol=1e-9)
+            if not ok:
+                fails.append({"case": k, "kind": "2d", "what": "2D interpolate_frequency differs from the piecewise-linear reference", "known_key": "spectrum_interpolation:2d:values"})
+        except Exception as e:
+            fails.append({"case": k, "kind": "2d", "what": f"raised {type(e).__name__}: {e}"[:220], "known_key": f"spectrum_interpolation:2d:{type(e).__name__}"})
+        if len(samples) < 2:
+            samples.append({"case": k, "nf": nf, "targets": targets.tolist()})
+    return {"evaluations": evals, "distinct": evals, "failures": fails[:6], "samples": samples,
+            "domain": f"{n} random non-uniform grids (4..12 nodes) x (1D linear / nearest / extrapolation value -1, 2D linear), targets on nodes, inside, at both ends and outside"}
